@@ -259,7 +259,7 @@ def armor_reader_tail(with_crc):
             r.oblige(s, 'returns-the-groups/p%d' % pi, z3.BoolVal(ok))
             if not ok:
                 continue
-            d = {k.s: x for k, x in v.pairs}
+            d = {k.s: x for k, x in v.of(s)}
             body = d.get('body')
             r.oblige(s, 'body=base64-decode(body text)/p%d' % pi, ex.seq(body, s) == UNB64(BODY64) if isinstance(body, (E.VBytes, E.VBuf)) else z3.BoolVal(False))
             warned = s.ghost.get('warned', ())
